@@ -1109,6 +1109,79 @@ def range_order_known(T, b, bb, start, end):
     for kind, db, x in prov.build_defs(b).get(op_place(start)["l"], ()):
         if kind == "call" and re.search(r"::min$|cmp::min::<", x["f"] or "") and any(not op_is_const(a) and (T.copy_roots(b, a) & Re) for a in x["a"]):
             return True
+    # (d) end = min(X, Y) where each of X, Y is known to be >= start: a controlling comparison
+    # between start and it dominates the use (`if start >= len { return }`), or it is an unsigned
+    # sum with start as an addend (`len.min(start + window)`)
+    def base_local(o, d=0):
+        """named local behind &x / &*x / copies"""
+        if op_is_const(o) or d > 6:
+            return None
+        l_ = op_place(o)["l"]
+        if b.names.get(l_) or 1 <= l_ <= b.nargs:
+            return l_
+        for kind, db, x in prov.build_defs(b).get(l_, ()):
+            if kind == "stmt" and not x["l"]["p"]:
+                if x["r"]["k"] in ("ref", "rawptr"):
+                    return base_local({"cp": {"l": x["r"]["p"]["l"], "p": []}}, d + 1)
+                if x["r"]["k"] in ("use", "cast") and not op_is_const(x["r"]["o"]):
+                    return base_local(x["r"]["o"], d + 1)
+            if kind == "call" and re.search(r"Deref(Mut)?>::deref(_mut)?$|::as_slice$|::as_ref$", x["f"] or "") and x["a"]:
+                return base_local(x["a"][0], d + 1)
+        return None
+
+    def len_of(o):
+        """the collection (named local) whose len() this operand is, else None"""
+        if op_is_const(o):
+            return None
+        for l_ in {op_place(o)["l"]} | {r for r in (T.copy_roots(b, o) | T.cast_siblings(b, o)) if isinstance(r, int)}:
+            for kind, db, x in prov.build_defs(b).get(l_, ()):
+                if kind == "call" and re.search(r"::len$", x["f"] or "") and x["a"]:
+                    return base_local(x["a"][0])
+        return None
+
+    def ge_start(a, depth=0):
+        if op_is_const(a) or depth > 4:
+            return False
+        Ra = T.copy_roots(b, a) | T.cast_siblings(b, a)
+        La = len_of(a)
+        for d, blk in enumerate(b.bbs):
+            t = blk["t"]
+            if t["k"] != "switch" or blk.get("cleanup"):
+                continue
+            dl = op_local(t["d"])
+            for st in blk["s"]:
+                if st["k"] == "=" and st["l"]["l"] == dl and st["r"]["k"] == "bin" and st["r"]["op"] in ("Lt", "Le", "Gt", "Ge"):
+                    A = T.copy_roots(b, st["r"]["a"]) | T.cast_siblings(b, st["r"]["a"]) if not op_is_const(st["r"]["a"]) else set()
+                    C = T.copy_roots(b, st["r"]["b"]) | T.cast_siblings(b, st["r"]["b"]) if not op_is_const(st["r"]["b"]) else set()
+                    if ((A & Rs and C & Ra) or (A & Ra and C & Rs)) and any(bb in cfg.edge_dom_set(b, d, tgt) for tgt in set(b.succs(d))):
+                        return True
+                    # the guard compared start with another reading of the same collection's length
+                    if La is not None and any(bb in cfg.edge_dom_set(b, d, tgt) for tgt in set(b.succs(d))):
+                        if (A & Rs and len_of(st["r"]["b"]) == La) or (C & Rs and len_of(st["r"]["a"]) == La):
+                            return True
+        for kind, db, x in prov.build_defs(b).get(op_place(a)["l"], ()):
+            if kind == "stmt" and not x["l"]["p"]:
+                r_ = x["r"]
+                if r_["k"] == "bin" and r_.get("op") in ("Add", "AddWithOverflow", "AddUnchecked") and re.match(r"^u(8|16|32|64|128|size)$", r_.get("ty") or ""):
+                    if any(not op_is_const(o) and ((T.copy_roots(b, o) | T.cast_siblings(b, o)) & Rs) for o in (r_["a"], r_["b"])):
+                        return True
+                if r_["k"] == "use" and not op_is_const(r_["o"]):
+                    pl_ = op_place(r_["o"])
+                    # `(sum.0)` of a checked addition
+                    if ge_start({"cp": {"l": pl_["l"], "p": []}}, depth + 1):
+                        return True
+        return False
+    ends = [op_place(end)["l"]]; seen_e = set()
+    while ends:
+        le = ends.pop()
+        if le in seen_e:
+            continue
+        seen_e.add(le)
+        for kind, db, x in prov.build_defs(b).get(le, ()):
+            if kind == "call" and re.search(r"::min$|cmp::min::<", x["f"] or "") and len(x["a"]) == 2 and all(ge_start(a) for a in x["a"]):
+                return True
+            if kind == "stmt" and not x["l"]["p"] and x["r"]["k"] in ("use", "cast") and not op_is_const(x["r"]["o"]) and not op_place(x["r"]["o"])["p"] and len(seen_e) < 8:
+                ends.append(op_place(x["r"]["o"])["l"])
     return False
 
 
